@@ -771,13 +771,23 @@ class Deviations:
     def __init__(self):
         self.by_class = collections.defaultdict(lambda: {"count": 0, "witness": None, "oracles": collections.Counter()})
         self.new = []
+        self.events = []
 
     def add(self, oracle, cls, text):
-        e = self.by_class[cls]
-        e["count"] += 1
-        e["oracles"][oracle] += 1
-        if e["witness"] is None or len(text) < len(e["witness"]):
-            e["witness"] = text
+        self.events.append((oracle, cls, text))
+
+    def settle(self, bad_texts):
+        """A recorded finding is behaviour the faithful model REPRODUCES: a deviation on a text on which
+        the real formatter disagrees with the model is tagged ':model-disagrees' (never a recorded class)."""
+        for oracle, cls, text in self.events:
+            if text in bad_texts:
+                cls += ":model-disagrees"
+            e = self.by_class[cls]
+            e["count"] += 1
+            e["oracles"][oracle] += 1
+            if e["witness"] is None or len(text) < len(e["witness"]):
+                e["witness"] = text
+        self.events = []
 
     def add_new(self, oracle, text, msg):
         self.new.append((oracle, text, msg))
@@ -893,6 +903,7 @@ def validate_known(real, dev_known, rng):
             dev_known[cid] = ok
             continue
         oracles(real, w, f1, d, st, rng, k["oracle"] == "compile", 0, extra)
+        d.settle(set())
         ok = cid in d.by_class
         dev_known[cid] = ok
         lines.append("KNOWN %-26s %s%s" % (cid, "reproduced" if ok else "NOT reproduced",
@@ -1023,6 +1034,7 @@ def main():
     kinds = collections.Counter(c["kind"].split(":")[0] + (":" + c["kind"].split(":")[1] if c["kind"].startswith("fmt:") else "") for c in cases)
     print("seed %d  texts %d (texts.py %d, formatter streams %d, derived %d)   real side %.1fs, total %.1fs" % (
         a.seed, len(cases), len(items), stats["primary_texts"] - len(items), len(cases) - stats["primary_texts"], t_real, tm.s()))
+    dev.settle(set(c["text"] for c, _, _ in mismatches if isinstance(c, dict)))
     print("  kinds: " + "  ".join("%s %d" % kv for kv in sorted(kinds.items())))
     print("  real formatter: ok %d   syntax error %d   panic %d   fatal %d" % (stats["real_OK"], stats["real_ERR"], stats["real_PANIC"],
                                                                              len(real.fatal)))
